@@ -1,6 +1,7 @@
 import FlVerif.Base.SExp
 import FlVerif.Base.FnRat
 import FlVerif.Op.Engine
+import FlVerif.Op.Session
 
 /-! Driver commands for the engine model (C01, C02, C13). -/
 
@@ -113,5 +114,31 @@ def engine : List SExp → Option SExp
         else atom "error"
       pure (list [list outs, batch])
   | _ => none
+
+def sessionCmd : SExp → Option (Op.Session.Cmd Rat)
+  | list (atom "set" :: vs) => do pure (.setInputs (← vs.mapM asX))
+  | list [atom "process"] => some .process
+  | list [atom "restart"] => some .restart
+  | list [atom "reconfig", e] => do pure (.reconfig (← engineD e))
+  | _ => none
+
+/-- `(session engine (cmd …))`: from a freshly built engine; one observation per `process` command:
+    `(v|disabled …)` or `error` -/
+def session : List SExp → Option SExp
+  | [atom "session", e, list cmds] => do
+      let e ← engineD e
+      let cmds ← cmds.mapM sessionCmd
+      let (_, outs) := cmds.foldl (fun (acc : Op.Session.Sess Rat × List SExp) c =>
+        let (s', o) := Op.Session.step Fn.rat acc.1 c
+        match c with
+        | .process =>
+          (s', acc.2 ++ [match o with
+            | none => atom "error"
+            | some vs => list (vs.map (fun v => match v with | some x => ofX x | none => atom "disabled"))])
+        | _ => (s', acc.2)) (Op.Session.fresh e, [])
+      pure (list outs)
+  | _ => none
+
+def engineAll (l : List SExp) : Option SExp := (engine l).orElse (fun _ => session l)
 
 end Drv
